@@ -362,9 +362,42 @@ def apply_spec_as_contract(I, dom, f, this, args, spec):
     return ret
 
 
+def path_substitution(trace):
+    """hypotheses `v - c == 0` / `v == 0` decided True on this path, as a substitution"""
+    env = {}
+    for (lab, d) in trace:
+        if not (isinstance(lab, tuple) and lab[0] == "is_zero" and d is True):
+            continue
+        p = lab[2]
+        vs = p.vars()
+        if len(vs) != 1 or p.degree() != 1:
+            continue
+        v = vs[0]
+        a = p.t.get(((v, 1),), 0)
+        c0 = p.t.get((), 0)
+        if a in (1, -1) and len(p.t) <= 2:
+            env[v] = Poly.const(-c0 * a)
+    return env
+
+
 def reduce_relations(p, relations):
-    """p modulo the ideal generated by N*t - 1 for the recorded inverses (p linear in each t)."""
+    """p modulo the ideal generated by N*t - 1 for the recorded inverses."""
     for (N, t) in relations:
+        # N a single variable z: cancel z^i t^j -> z^(i-m) t^(j-m)
+        if len(N.t) == 1 and list(N.t.values()) == [1] and len(list(N.t.keys())[0]) == 1 and list(N.t.keys())[0][0][1] == 1:
+            z = list(N.t.keys())[0][0][0]
+            q = Poly()
+            for m, c in p.t.items():
+                d = dict(m)
+                k = min(d.get(z, 0), d.get(t, 0))
+                if k:
+                    for vv in (z, t):
+                        d[vv] -= k
+                        if d[vv] == 0:
+                            del d[vv]
+                q = q + Poly({tuple(sorted(d.items())): c})
+            p = q
+            continue
         tv = Poly.var(t)
         # split p = t*A + B (A, B free of t) ; if t appears with higher degree give up
         A, B = Poly(), Poly()
@@ -575,8 +608,9 @@ class RingUnit:
                         continue           # path excluded by the spec's precondition
                     for p, want in exp.items():
                         n_ob += 1
+                        sub = path_substitution(trace)
                         if p.startswith("rel:"):
-                            d = reduce_relations(want, r["dom"].relations)
+                            d = reduce_relations(want.subs(sub) if sub else want, r["dom"].relations)
                             if d.is_zero():
                                 n_ok += 1
                                 if len(samples) < 6:
@@ -591,6 +625,8 @@ class RingUnit:
                             continue
                         if isinstance(want, Poly) or isinstance(got, Poly):
                             d = (got - want) if isinstance(got, Poly) else (Poly.const(got) - want)
+                            if sub:
+                                d = d.subs(sub)
                             d = reduce_relations(d, r["dom"].relations)
                             if d.is_zero():
                                 n_ok += 1
